@@ -497,6 +497,7 @@ func main() {
 	r.Register("msg", runMsg)
 	registerSpec(r)
 	registerViews(r)
+	registerCensus(r)
 	if r.Replayed() {
 		return
 	}
@@ -524,6 +525,9 @@ func main() {
 			}
 		}
 	}
+
+	// 0b. census of the source against the model's lists
+	censusCases(g)
 
 	// 1. reference renderings against the standard library
 	specCases(g)
